@@ -451,6 +451,7 @@ func init() {
 	replayers["C08/names"] = replayers["C08/probe"]
 	replayers["C08/programs"] = replayers["C08/probe"]
 	replayers["C08/cmd"] = replayers["C08/probe"]
+	replayers["C08/routes"] = replayers["C08/probe"]
 }
 
 func c08IndirectRoutes(name, args string) map[string]string {
@@ -467,13 +468,23 @@ func c08IndirectRoutes(name, args string) map[string]string {
 		"in-let-binding": "(let [q " + call + "] q)",
 		"str2sym-eval":   "(eval (list (str2sym " + strconv.Quote(name) + ") " + args + "))",
 		"begin":          "(begin 1 " + call + ")",
+		// routes whose code is compiled or run inside a derived interpreter (macro expansion,
+		// macexpand, expectError): the restriction must travel with it
+		"expect-error":        "(expectError \"\" " + call + ")",
+		"macro-body":          "(defmac mzz [] " + call + " 1) (mzz)",
+		"macro-body-eval":     "(defmac mzz [] (eval (quote " + call + ")) 1) (mzz)",
+		"macexpand-body-eval": "(defmac mzz [] (eval (quote " + call + ")) 1) (macexpand (mzz))",
+		"macro-arg-eval":      "(defmac mzz [x] (eval x) 1) (mzz " + call + ")",
+		"macro-in-fn":         "(defmac mzz [] (eval (quote " + call + ")) 1) (defn usesm [] (mzz)) (usesm)",
+		"for-body":            "(for [(def i 0) (< i 1) (def i (+ i 1))] " + call + ")",
+		"closure-later":       "(def later (fn [] " + call + ")) (later)",
 	}
 }
 
 func TestC08(t *testing.T) {
 	p := begin(t, "C08")
 	r := p.r
-	r.SetRule("names: the name universe is enumerated at check time = every global, builtin and macro of the configured sandbox interpreter, every case label of the compiler's special-form switch (extracted from generator.go with go/parser), and every key of SystemFunctions()/AllBuiltinFunctions() (to catch aliases); each name is called with 16 argument shapes (canary file path as string / relative / package path / list / array / symbol, path+data in both orders, shell command as string and as words, canary environment name alone / with a value, an integer, none) in configurations {bare sandbox, sandbox + StandardSetup}, in child processes. programs: rapid-generated indirections (alias, apply, map, eval of a quoted form, macro, read+eval, infix block, inside fn, let binding, str2sym+eval) of the names that act on files, processes or the environment. cmd: the real command line tool zygo -sandbox -c <text>. Canaries observed from outside the interpreter: canary file content in the result or error text, canaryLeak bound afterwards, any global holding the secret, directory fingerprint changed (created/modified file), environment variable read (secret in result), changed or set, child process death or hang. Errors are the expected outcome. Non-trivial: the name is bound or a special form in that configuration. Distinct by (config, name, shape/route).")
+	r.SetRule("names: the name universe is enumerated at check time = every global, builtin and macro of the configured sandbox interpreter, every case label of the compiler's special-form switch (extracted from generator.go with go/parser), and every key of SystemFunctions()/AllBuiltinFunctions() (to catch aliases); each name is called with 16 argument shapes (canary file path as string / relative / package path / list / array / symbol, path+data in both orders, shell command as string and as words, canary environment name alone / with a value, an integer, none) in configurations {bare sandbox, sandbox + StandardSetup}, in child processes. programs: rapid-generated indirections (alias, apply, map, eval of a quoted form, macro, read+eval, infix block, inside fn, let binding, str2sym+eval) of the names that act on files, processes or the environment. routes: every one of 19 routes (the above plus expectError, macro body, macro body doing eval, macexpand of it, eval of a macro argument, macro used inside a function, for body, closure called later) x 18 dangerous names x 16 argument shapes x both configurations, exhaustively. cmd: the real command line tool zygo -sandbox -c <text>. Canaries observed from outside the interpreter: canary file content in the result or error text, canaryLeak bound afterwards, any global holding the secret, directory fingerprint changed (created/modified file), environment variable read (secret in result), changed or set, child process death or hang. Errors are the expected outcome. Non-trivial: the name is bound or a special form in that configuration. Distinct by (config, name, shape/route).")
 	r.Assume("effects are only observable through the planted canaries (file read/evaluate, file create/modify, shell marker, environment read/write, process exit)", "send and <! on channels block by design and are skipped when they hang")
 	scratch := os.Getenv("VERIF_SCRATCH")
 	if scratch == "" {
@@ -540,6 +551,38 @@ func TestC08(t *testing.T) {
 		})
 		for _, config := range []string{"bare", "std"} {
 			c08Run(t, p, scratch, config, progProbes[config], "programs")
+		}
+		// (2b) every route x dangerous name x argument shape, exhaustively
+		var rn []string
+		for k := range c08IndirectRoutes("x", "") {
+			rn = append(rn, k)
+		}
+		sort.Strings(rn)
+		nw, me := 1, 0
+		if ev.NShards() > 2 {
+			nw, me = ev.NShards()-2, ev.Shard()-2
+		}
+		total := 0
+		for _, config := range []string{"bare", "std"} {
+			var probes []c08Probe
+			k := 0
+			for _, name := range dangerous {
+				for _, route := range rn {
+					for _, sh := range shapeNames {
+						k++
+						if k%nw != me {
+							continue
+						}
+						id++
+						probes = append(probes, c08Probe{ID: id, Name: name, Form: route + "/" + sh, Text: c08IndirectRoutes(name, shapes[sh])[route]})
+					}
+				}
+			}
+			total += k
+			c08Run(t, p, scratch, config, probes, "routes")
+		}
+		if me == 0 {
+			r.ExhaustiveSpace("routes x dangerous names x argument shapes x config", int64(total))
 		}
 	}
 
